@@ -349,7 +349,7 @@ fn run_fsrc(seed: u64) -> Result<u64, Fail> {
             for k in 0..take {
                 let idx = ((got + k as u64) % (nsamp.max(1) as u64)) as usize;
                 if nsamp == 0 || rb.slice()[k].to_bits() != samples[idx].to_bits() {
-                    return Err(fail(t, "C14+C16", "emits-the-file-samples-in-order-every-repetition", format!("{params}: output sample {} is {:?}, the file has {:?} there", got + k as u64, rb.slice()[k], samples.get(idx)), seed));
+                    return Err(fail(t, "C14+C16+C08", "emits-the-file-samples-in-order-every-repetition", format!("{params}: output sample {} is {:?}, the file has {:?} there", got + k as u64, rb.slice()[k], samples.get(idx)), seed));
                 }
             }
             rb.consume(take);
@@ -365,7 +365,7 @@ fn run_fsrc(seed: u64) -> Result<u64, Fail> {
         for k in 0..rb.len() {
             let idx = ((got + k as u64) % (nsamp.max(1) as u64)) as usize;
             if nsamp == 0 || rb.slice()[k].to_bits() != samples[idx].to_bits() {
-                return Err(fail(t, "C14+C16", "emits-the-file-samples-in-order-every-repetition", format!("{params}: output sample {} differs from the file", got + k as u64), seed));
+                return Err(fail(t, "C14+C16+C08", "emits-the-file-samples-in-order-every-repetition", format!("{params}: output sample {} differs from the file", got + k as u64), seed));
             }
         }
         let total = got + rb.len() as u64;
@@ -431,7 +431,7 @@ fn run_fsrc_fifo(seed: u64) -> Result<u64, Fail> {
             let v = work(t, seed, &mut src)?;
             works += 1;
             if v == 2 || v == 4 {
-                return Err(fail(t, "C14", "samples-reassembled-for-every-read-segmentation", format!("reads of {sizes:?} bytes: work() returned {} before the data ended", if v == 2 { "EOF" } else { "an error" }), seed));
+                return Err(fail(t, "C14+C08", "samples-reassembled-for-every-read-segmentation", format!("reads of {sizes:?} bytes: work() returned {} before the data ended", if v == 2 { "EOF" } else { "an error" }), seed));
             }
         }
         let _ = tx_go.send(()); // let the feeder close the pipe
@@ -439,7 +439,7 @@ fn run_fsrc_fifo(seed: u64) -> Result<u64, Fail> {
         let got: Vec<Float> = rb.slice().to_vec();
         if got.len() != nsamp || got.iter().zip(samples.iter()).any(|(a, b)| a.to_bits() != b.to_bits()) {
             let k = got.iter().zip(samples.iter()).position(|(a, b)| a.to_bits() != b.to_bits()).unwrap_or(got.len().min(nsamp));
-            return Err(fail(t, "C14", "samples-reassembled-for-every-read-segmentation", format!("reads of {sizes:?} bytes: {} samples out, {nsamp} in the byte stream; first difference at sample {k}: {:?} vs {:?}", got.len(), got.get(k), samples.get(k)), seed));
+            return Err(fail(t, "C14+C08", "samples-reassembled-for-every-read-segmentation", format!("reads of {sizes:?} bytes: {} samples out, {nsamp} in the byte stream; first difference at sample {k}: {:?} vs {:?}", got.len(), got.get(k), samples.get(k)), seed));
         }
         Ok(works)
     })();
@@ -658,7 +658,7 @@ fn run_tcp(seed: u64) -> Result<u64, Fail> {
     res?;
     let same = got.len() == vals.len() && got.iter().zip(vals.iter()).all(|(a, b)| a.to_bits() == b.to_bits());
     if !same {
-        return Err(fail(t, "C14", "samples-reassembled-for-every-read-segmentation", format!("read sizes {:?}: {} samples delivered by EOF, {} sent; first difference at {:?}", segs, got.len(), vals.len(), got.iter().zip(vals.iter()).position(|(a, b)| a.to_bits() != b.to_bits())), seed));
+        return Err(fail(t, "C14+C08", "samples-reassembled-for-every-read-segmentation", format!("read sizes {:?}: {} samples delivered by EOF, {} sent; first difference at {:?}", segs, got.len(), vals.len(), got.iter().zip(vals.iter()).position(|(a, b)| a.to_bits() != b.to_bits())), seed));
     }
     Ok(works)
 }
@@ -858,7 +858,7 @@ fn run_sigmf(seed: u64) -> Result<u64, Fail> {
                 let ok = eof && got.len() == want_len && got.iter().enumerate().all(|(i, v)| v.to_bits() == samples[i % nsamp.max(1)].to_bits());
                 if !ok {
                     let k = got.iter().enumerate().position(|(i, v)| nsamp == 0 || v.to_bits() != samples[i % nsamp].to_bits());
-                    res = Err(fail(t, "C14+C16", "data-exactly-repeat-times-then-eof", format!("{desc}: eof={eof}, {} samples emitted, {} specified, first wrong sample at {:?}", got.len(), want_len, k), seed));
+                    res = Err(fail(t, "C14+C16+C08", "data-exactly-repeat-times-then-eof", format!("{desc}: eof={eof}, {} samples emitted, {} specified, first wrong sample at {:?}", got.len(), want_len, k), seed));
                     break 'outer;
                 }
             }
